@@ -398,6 +398,13 @@ impl System for BSys {
             v.push(BEv::Join { accept: Some(0) });
             v.push(BEv::Join { accept: Some(1) });
             v.push(BEv::Join { accept: Some(2) });
+            if self.front == "async-c" {
+                // Class C: the JoinAccept / a junk frame is heard while the device listens between the join request
+                // and its windows (3: accept before RX1, 4: accept before RX2, 5: junk before RX1 and RX2)
+                for k in 3..=5 {
+                    v.push(BEv::Join { accept: Some(k) });
+                }
+            }
             v.push(BEv::Up { confirmed: false });
             return v;
         }
@@ -450,6 +457,26 @@ impl System for BSys {
                 }
                 // (a rejected frame leaves rxc_listen waiting: Blocked is the normal answer)
                 self.outcome = format!("listen:{}", short_aresp(&st.resp));
+            }
+            return out;
+        }
+        if let (BEv::Join { accept: Some(k @ 3..=5) }, Some(ac)) = (ev, &mut self.ac) {
+            let mut out = vec![];
+            let script = match k {
+                3 => Script { rxc1: vec![good_join_accept(&region, false)], ..Default::default() },
+                4 => Script { rxc2: vec![good_join_accept(&region, false)], ..Default::default() },
+                _ => Script { rxc1: vec![junk(0)], rxc2: vec![junk(1)], ..Default::default() },
+            };
+            if let Some(st) = ac.apply(&AEv::Join(script)) {
+                match &st.resp {
+                    AResp::Panic(p) => {
+                        let (s, w) = classify_at(p, &self.front, "join-with-classc-reception", &region, &st.before);
+                        out.push(V { sig: s, what: w });
+                    }
+                    AResp::Blocked => out.push(V { sig: format!("C04|{}|deadlock|join-with-classc-reception|history", self.front), what: "call stayed pending".into() }),
+                    _ => {}
+                }
+                self.outcome = format!("join-rxc:{}", short_aresp(&st.resp));
             }
             return out;
         }
@@ -794,7 +821,7 @@ pub fn run(tier: Tier, replay: Option<&str>) {
         ],
         "evaluations": ctx.evals(),
         "distinct_nontrivial": states + seen.lock().unwrap().len() as u64,
-        "rule": "Layer A: for every region x {ABP,OTAA} x base state x front-end, one authentic downlink (FOpts and port 0) carrying one command with its full value domain (LinkADRReq DR x TXPower x ChMaskCntl x mask patterns x NbTrans x RFU bit and 2-3 command blocks; RXParamSetupReq all 256 DLSettings x frequency set; RXTimingSetupReq / TXParamSetupReq / DutyCycleReq all 256; NewChannelReq index x frequency set x DrRange bytes; DlChannelReq; every CID 0..255 with 0..5 trailing bytes) or one JoinAccept (all 256 DLSettings x RxDelay x CFList variants); every distinct resulting MAC snapshot is followed by two uplinks with the first RNG draw enumerated over 0..63. Layer B: BFS over histories (uplinks, commands that delete channels / shrink the mask / change DR, junk and oversized frames, set_datarate for region-defined rates, set_adr, joins with minimal CFLists, ADR back-off from a pre-loaded counter). Layer B also on boards with 1000 / 2500 / 6000 ms receive windows, window offsets and a clock next to its wrap. Layer C: runs of 150 (thorough: 400) consecutive unanswered join attempts on the fixed plans for each join-bias setting. states = distinct post-command snapshots (A) + distinct canonical states (B)",
+        "rule": "Layer A: for every region x {ABP,OTAA} x base state x front-end, one authentic downlink (FOpts and port 0) carrying one command with its full value domain (LinkADRReq DR x TXPower x ChMaskCntl x mask patterns x NbTrans x RFU bit and 2-3 command blocks; RXParamSetupReq all 256 DLSettings x frequency set; RXTimingSetupReq / TXParamSetupReq / DutyCycleReq all 256; NewChannelReq index x frequency set x DrRange bytes; DlChannelReq; every CID 0..255 with 0..5 trailing bytes) or one JoinAccept (all 256 DLSettings x RxDelay x CFList variants); every distinct resulting MAC snapshot is followed by two uplinks with the first RNG draw enumerated over 0..63. Layer B: BFS over histories (uplinks, commands that delete channels / shrink the mask / change DR, junk and oversized frames, set_datarate for region-defined rates, set_adr, joins with minimal CFLists, (Class C) joins during which the JoinAccept or junk is heard by the continuous reception between the request and its windows, ADR back-off from a pre-loaded counter). Layer B also on boards with 1000 / 2500 / 6000 ms receive windows, window offsets and a clock next to its wrap. Layer C: runs of 150 (thorough: 400) consecutive unanswered join attempts on the fixed plans for each join-bias setting. states = distinct post-command snapshots (A) + distinct canonical states (B)",
         "layer_a_cases": cases_a.load(Ordering::Relaxed),
         "layer_a_followups": followups.load(Ordering::Relaxed),
         "layer_b_depth": depth,
